@@ -12,6 +12,10 @@ macro_rules! info  { ($($t:tt)*) => { () } }
 
 #[verifier::external_body]
 pub fn nondet() -> bool { unimplemented!() }
+// E3r: tokio::select! panics when every branch was disabled by a non-matching refutable pattern and
+// there is no `else` arm -- a panic obligation (the precondition cannot be met)
+#[verifier::external_body]
+pub fn select_all_branches_disabled() -> ! requires false { unimplemented!() }
 
 // `vec![elem; n]` allocates n elements up front: std panics ("capacity overflow") when that exceeds
 // isize::MAX bytes.  The std macro is shadowed so that this panic is an obligation; every other
